@@ -49,7 +49,7 @@ type Op struct {
 	DigestTags bool   `json:"digest_tags,omitempty"`
 	Tar        string `json:"tar,omitempty"`         // import: tar file
 	RefForm    string `json:"ref_form,omitempty"`    // "" (tag if given, else digest) | tag+digest | bare | digest
-	DescMode   string `json:"desc_mode,omitempty"`   // blob: "" | none | digest-only | size-only | wrong-digest | wrong-size
+	DescMode   string `json:"desc_mode,omitempty"`   // blob: "" | none | digest-only | size-only | wrong-digest | wrong-size | inline
 	Ctx        string `json:"ctx,omitempty"`         // "" | cancelled (the call gets an already cancelled context)
 	Force      bool   `json:"force,omitempty"`       // copy: ImageWithForceRecursive
 	Fast       bool   `json:"fast,omitempty"`        // copy: ImageWithFastCheck
@@ -174,6 +174,10 @@ func run(ctx context.Context, rc *regclient.RegClient, dir string, op Op) error 
 		case "wrong-size":
 			d.Digest = digest.Digest(op.Digest)
 			d.Size = int64(len(op.Data)) + 1
+		case "inline": // the descriptor carries the content in its data field
+			d.Digest = digest.Digest(op.Digest)
+			d.Size = int64(len(op.Data))
+			d.Data = op.Data
 		default:
 			d.Digest = digest.Digest(op.Digest)
 			d.Size = int64(len(op.Data))
